@@ -719,6 +719,32 @@ let op_pp r = function
     end
   | _ -> failwith "pp: fields"
 
+(* ---------- op: html (C17) ---------- *)
+let op_html r = function
+  | [mode; ver; values; attrs; skel; scheme; complete; err] ->
+    tag r ("mode=" ^ mode);
+    if starts_with err "PANIC" then flag r "impl:panic"
+    else if starts_with err "ERR" then (flag r "prop:C17:render-error"; r.detail <- err)
+    else begin
+      if skel <> "1" then flag r "prop:C17:structure-depends-on-data";
+      if scheme <> "1" then flag r "prop:C17:href-scheme";
+      if complete <> "1" then flag r "prop:C17:incomplete";
+      let verb = bytes_of_hex ver in
+      let sigs = if mode = "agg" then List.map (fun (b : M.bucket) -> b.M.bSig) (buckets_of (parse_sx values))
+                 else List.map (fun (g : M.goroutine) -> g.M.gSig) (goroutines_of (parse_sx values)) in
+      let m_attrs = List.concat_map (fun s -> List.map string_of_bytes (M.sig_attrs verb s)) sigs in
+      let i_attrs = List.map unhex (split_on ',' attrs) in
+      tag r (Printf.sprintf "attrs=%d" (min 20 (List.length i_attrs)));
+      if m_attrs <> i_attrs then begin
+        flag r "corr:attrs";
+        let rec first_diff i a b = match a, b with
+          | x :: a', y :: b' -> if x = y then first_diff (i + 1) a' b' else Printf.sprintf "attr %d: model [%s] impl [%s]" i (String.escaped x) (String.escaped y)
+          | [], [] -> "" | _ -> Printf.sprintf "length: model %d impl %d" (List.length m_attrs) (List.length i_attrs) in
+        r.detail <- first_diff 0 m_attrs i_attrs
+      end
+    end
+  | _ -> failwith "html: fields"
+
 (* ---------- main loop ---------- *)
 let () =
   let ops : (string, res -> string list -> unit) Hashtbl.t = Hashtbl.create 16 in
@@ -729,6 +755,7 @@ let () =
   Hashtbl.replace ops "cut" op_cut;
   Hashtbl.replace ops "names" op_names;
   Hashtbl.replace ops "pp" op_pp;
+  Hashtbl.replace ops "html" op_html;
   Hashtbl.replace ops "chunk" op_chunk;
   (try
     while true do
